@@ -940,3 +940,42 @@ Proof.
 Qed.
 
 End FilesProofs.
+
+(* ======================================================================================== *)
+(* 5. The orientation heuristic is antisymmetric (T09.7)                                      *)
+(* ======================================================================================== *)
+Require Import ZifyBool.
+
+(* if the heuristic prefers the else-branch as body, it does not prefer the original body back once
+   the branches are swapped -- so swap_if_else is not re-applied to its own output -- for all
+   well-formed branch summaries without dead code, except when both branches are only `pass` *)
+Theorem orelse_preferred_antisym b o :
+  branch_wf b = true -> branch_wf o = true -> no_dead_code b = true -> no_dead_code o = true ->
+  br_all_pass b && br_all_pass o = false ->
+  orelse_preferred b o = true -> orelse_preferred o b = false.
+Proof.
+  unfold branch_wf, no_dead_code, orelse_preferred.
+  destruct b as [bp bb bn bl bf], o as [op ob on ol of_];
+    cbn [br_all_pass br_blocking br_branches br_len br_first_exit].
+  destruct bp, op, bb, ob, bf, of_; cbn [negb andb orb]; intros; try discriminate; try reflexivity;
+    repeat match goal with
+           | H : context[if ?c then _ else _] |- _ => destruct c eqn:?
+           | |- context[if ?c then _ else _] => destruct c eqn:?
+           end; try discriminate; try reflexivity; lia.
+Qed.
+
+(* the no-dead-code guard is needed: a branch that starts with `return` and still contains an `if`
+   after it is preferred both ways *)
+Theorem orelse_preferred_antisym_refuted :
+  exists b o, branch_wf b = true /\ branch_wf o = true /\ br_all_pass b && br_all_pass o = false
+              /\ orelse_preferred b o = true /\ orelse_preferred o b = true.
+Proof.
+  exists (mkBranch false true 2 2 true), (mkBranch false true 1 4 true). vm_compute. repeat split.
+Qed.
+
+Example orelse_preferred_example :
+  (* body: 8 plain statements ending in return; else: [if y > 3: return y; return x] *)
+  let b := mkBranch false true 1 8 false in
+  let o := mkBranch false true 2 2 false in
+  branch_wf b = true /\ no_dead_code o = true /\ orelse_preferred b o = false /\ orelse_preferred o b = true.
+Proof. vm_compute. repeat split. Qed.
